@@ -1,6 +1,6 @@
 """C05 Every instruction word executes with the specified semantics."""
 import astq
-from rules import decode, jit, jitcross, rv64
+from rules import decode, jit, jitcross, rv64, a64sem, sshash
 
 LEVEL = 'other'
 TECHNIQUE = 'exhaustive path enumeration of the decoder against the specification tables + known-bits abstract interpretation of FP bit-pattern constructors'
@@ -32,3 +32,5 @@ def run(ctx, R):
     rv64.rule_jitmask(ctx, R, F)
     jitcross.rule_immneg(ctx, R, 'a64')
     jitcross.rule_immneg(ctx, R, 'rv64')
+    a64sem.rule_immhelp(ctx, R)
+    sshash.rule_immenc(ctx, R, F)
